@@ -186,10 +186,14 @@ impl Router {
                                 self.handlers.insert(new_receiver_id, handler);
                             },
                             RouterMsg::Shutdown(sender) => {
+                                // Drop every registered callback (and whatever it owns)
+                                // before acknowledging, then stop for good: leaving only
+                                // the inner loop would go back to `select()`.
+                                self.handlers.clear();
                                 sender
                                     .send(())
                                     .expect("Failed to send comfirmation of shutdown.");
-                                break;
+                                return;
                             },
                         }
                     },
